@@ -107,9 +107,9 @@ def run(ctx):
     samples = []
     cfgs = []
     for _ in range(n_cfg):
-        cfgs.append({"Rate": rng.choice(["180", "250", "90"]), "Pitch": rng.choice(["0", "10", "-20"]), "Volume": rng.choice(["100", "50"]),
-                     "PauseFactor": rng.choice(["100", "200", "0", "50"]), "MathRate": rng.choice(["100", "80", "150"]),
-                     "CapitalLetters_Pitch": rng.choice(["0", "30", "-15"]), "CapitalLetters_Beep": rng.choice(["true", "false"]),
+        cfgs.append({"Rate": rng.choice(["180", "250", "90"]), "Pitch": rng.choice(["0", "10", "-20", "1", "-0.5"]), "Volume": rng.choice(["100", "50"]),
+                     "PauseFactor": rng.choice(["100", "200", "0", "50"]), "MathRate": rng.choice(["100", "80", "150", "101", "99.5", "300"]),
+                     "CapitalLetters_Pitch": rng.choice(["0", "30", "-15", "1", "-1", "0.4", "100", "-60"]), "CapitalLetters_Beep": rng.choice(["true", "false"]),
                      "CapitalLetters_UseWord": rng.choice(["true", "false"]), "Bookmark": rng.choice(["true", "false"]),
                      "Verbosity": rng.choice(["Terse", "Medium", "Verbose"]), "SpeechStyle": rng.choice(["ClearSpeak", "SimpleSpeak"]),
                      "Language": rng.choice(["en", "en", "de", "fr", "es"])})
